@@ -1035,6 +1035,8 @@ class Evaluator:
     def map1(self, f, a, kind=None):
         if isinstance(a, (Arr, ColView)):
             g = a.f
+            if hasattr(a, "labels"):
+                return type(a)(a.n, lambda j: f(g(j)), kind or a.kind, labels=a.labels)
             return Arr(a.n, lambda j: f(g(j)), kind or a.kind)
         if isinstance(a, Comp):
             g = a.f
@@ -1088,6 +1090,14 @@ class Evaluator:
         if not is_z3(b.n) and not isinstance(b.n, Count) and b.n == 1 and not same_term(a.n, b.n):
             return Arr(a.n, lambda j: f(fa(j), fb(0)), kind or _rk(a, b))
         self.same_len(a.n, b.n, lineno)
+        la, lb = getattr(a, "labels", None), getattr(b, "labels", None)
+        if la is not None or lb is not None:
+            # pandas aligns Series operands by label; the call sites combine selections made with
+            # the same label array, for which alignment is positional
+            if la is not None and lb is not None and la is not lb:
+                raise Unsupported("arithmetic between Series with different label arrays (line %d)" % lineno)
+            src = a if la is not None else b
+            return type(src)(a.n, lambda j: f(fa(j), fb(j)), kind or _rk(a, b), labels=src.labels)
         return Arr(a.n, lambda j: f(fa(j), fb(j)), kind or _rk(a, b))
 
     def same_len(self, n1, n2, lineno):
@@ -1294,6 +1304,16 @@ class Evaluator:
             raise Unsupported("pit store (line %d)" % lineno)
         if isinstance(base, (Arr, ColView)):
             return self.arr_store(base, idx, v, lineno, env)
+        if isinstance(base, Comp) and isinstance(idx, Comp) and idx.kind == "b":
+            # c[m] = v  on a compressed (fresh) array c with a mask m compressed the same way
+            self.same_mask(base.mask, idx.mask, lineno)
+            oldf, mf = base.f, idx.f
+            if isinstance(v, Comp):
+                raise Unsupported("compressed value stored into a compressed array (line %d)" % lineno)
+            if is_array(v):
+                raise Unsupported("array stored through a compressed mask (line %d)" % lineno)
+            base.f = (lambda j: ite(mf(j), v, oldf(j)))
+            return
         raise Unsupported("store into %r (line %d)" % (base, lineno))
 
     def arr_store(self, a, idx, v, lineno, env):
@@ -1432,6 +1452,8 @@ class Evaluator:
             if attr == "size":
                 return obj.n
             if attr == "values" and getattr(obj, "is_series", False):
+                if hasattr(obj, "labels"):
+                    return Arr(obj.n, obj.f, obj.kind)
                 return obj
             if attr == "T":
                 raise Unsupported("transpose")
